@@ -48,7 +48,9 @@ def gen(rng, tier):
     tname = rng.choice(("dff", "ff"))
     nflops = rng.randint(1, 4)
     # a flop type with a second output pin (an inverted output, a scan output)
-    pins_out = ["q", "qn"] if rng.random() < 0.12 else ["q"]
+    r_po = rng.random()
+    pins_out = ["q", "qn"] if r_po < 0.08 else ["q"]
+    spare_out = 0.08 <= r_po < 0.2      # ... or one that nothing reads (added below, to every instance)
     net = G.gen_net(rng, n_inputs=(1, 3), n_gates=(1, 9), types=G.swarm_types(rng), max_arity=3, constants=0.15,
                     bbs=(nflops, nflops), bb_types=[(tname, pins_in, pins_out)], name_style="plain", min_outputs=1,
                     input_outputs=0.1)
@@ -74,6 +76,10 @@ def gen(rng, tier):
                 nodes[f"{inst}.{p}"] = ["bb_input", [rng.choice(sigs)] if p == "d" else [p + "_in"], False]
             for p in pins_out:
                 nodes[f"{inst}.{p}"] = ["bb_output", [], False]
+    if spare_out:
+        for inst, v in net["bbs"].items():
+            v[2] = list(v[2]) + ["qn"]
+            nodes[f"{inst}.qn"] = ["bb_output", [], False]
     # flop feeding flop directly
     insts = list(net["bbs"])
     if len(insts) >= 2 and rng.random() < 0.4:
@@ -373,6 +379,10 @@ def run(case, ctx):
     dep = False
     for t in range(n):
         fixed = {f"{inst}.{q}": state[inst] for inst in insts}
+        for inst in insts:
+            for p in pin_out:
+                if p != q:
+                    fixed[f"{inst}.{p}"] = 0      # an output pin nothing reads (a read one was refused above)
         for i in ins:
             fixed[i] = vt[pos[io_map[i][t]]] if i in kept_in else 0
         tc, _, _ = ref.truth_tables(net, [], fixed=fixed, k=K)
